@@ -201,8 +201,9 @@ class C11(core.Check):
         rnd = core.sub_rng('C11', seed, shard)
         n = (16000 if tier == "quick" else 200000) // nshards
         for i in range(n):
+            ml = rnd.random() < .2
             yield dict(s=rnd.getrandbits(48), lang=rnd.choice(['en', 'en', 'de', 'ru']), seqs=rnd.random() < .2,
-                       pack=rnd.choice(['*', '*', '*', '']))
+                       pack='*' if ml else rnd.choice(['*', '*', '*', '']), ml=ml)
 
     def judge(self, case):
         rnd = random.Random(case['s'])
@@ -222,6 +223,12 @@ class C11(core.Check):
             e.env = env
             e.wa = 'wa%dz' % k
             e.wb = 'wb%dz' % k
+            if case.get('ml'):
+                # multi-language mode: a hard language switch before each equation
+                e.lang = rnd.choice(['en', 'de', 'ru'])
+                src += '\n\n\\selectlanguage{%s}\n\n' % {'en': 'english', 'de': 'german', 'ru': 'russian'}[e.lang]
+            else:
+                e.lang = lang
             src += e.wa + '\n'
             e.start = len(src)
             dangling = case['seqs'] and rnd.random() < .3
@@ -233,17 +240,27 @@ class C11(core.Check):
             e.end = len(src)
             src += '\n' + e.wb + rnd.choice(['\n\n', '\n', ' '])
             eqs.append(e)
-        (t, p), err = tex.run(src, lang=lang, pack=case['pack'], seqs=case['seqs'])
+        if case.get('ml'):
+            code = {'en': 'en-GB', 'de': 'de-DE', 'ru': 'ru-RU'}[lang]
+            r, err = tex.run(src, ml=True, lang=code, pack=case['pack'], seqs=case['seqs'])
+            # judged on the concatenation of all parts (each equation lies between its own two words)
+            t = ''.join(part[0] + '\n\n' for lg in r for part in r[lg])
+            p = [q for lg in r for part in r[lg] for q in list(part[1]) + [part[1][-1], part[1][-1]]]
+        else:
+            (t, p), err = tex.run(src, lang=lang, pack=case['pack'], seqs=case['seqs'])
         cnt = {'equations': neq, 'seqs_docs' if case['seqs'] else 'full_docs': 1}
+        if case.get('ml'):
+            cnt['ml_docs'] = 1
         detail = dict(src=src, plain=t, stderr=err, lang=lang, seqs=case['seqs'])
         if err:
             return dict(ok=False, nt=True, key='stderr', cnt=cnt, obs=None, detail=detail)
         if 'Q' in t:
             return dict(ok=False, nt=True, key='maths-source-leak', cnt=cnt, obs=None, detail=detail)
-        repls = list(DISP[lang])
+        repls_by_lang = {lg: list(DISP[lg]) for lg in DISP}
         nt = False
         for e in eqs:
-            lines = model(e.rows, repls, OPW[lang])
+            repls = repls_by_lang[e.lang]
+            lines = model(e.rows, repls, OPW[e.lang])
             m = re.search(re.escape(e.wa) + r'\n(.*?)\n' + re.escape(e.wb), t, re.S)
             detail['equation'] = src[e.start:e.end]
             if not m:
@@ -278,9 +295,9 @@ class C11(core.Check):
                         key = 'rotation'
                     elif re.sub(r'[.,;:]', '', gl) == re.sub(r'[.,;:]', '', wl):
                         key = 'punctuation'
-                    elif any(o in gl or o in wl for o in OPW[lang].values()) and \
-                            re.sub('|'.join(sorted(set(OPW[lang].values()), key=len, reverse=True)), '', gl) == \
-                            re.sub('|'.join(sorted(set(OPW[lang].values()), key=len, reverse=True)), '', wl):
+                    elif any(o in gl or o in wl for o in OPW[e.lang].values()) and \
+                            re.sub('|'.join(sorted(set(OPW[e.lang].values()), key=len, reverse=True)), '', gl) == \
+                            re.sub('|'.join(sorted(set(OPW[e.lang].values()), key=len, reverse=True)), '', wl):
                         key = 'operator-word'
                     else:
                         key = 'row-text'
@@ -317,7 +334,7 @@ class C11(core.Check):
                     obs=dict(src=tex.short(src, 300), plain=tex.short(t, 200)))
 
     def quotas(self, tier):
-        return {'equations_judged': 5000, 'rows_judged': 10000, 'with_kept_punctuation': 2000,
+        return {'ml_docs': 500, 'equations_judged': 5000, 'rows_judged': 10000, 'with_kept_punctuation': 2000,
                 'with_operator_word': 1500, 'simple_equations_judged': 1000}
 
 
